@@ -262,6 +262,11 @@ def _simulate_wrapper(w: ast.FunctionDef, scenario):
                 continue
             if isinstance(s_, ast.AugAssign):
                 continue
+            if isinstance(s_, ast.Expr) and isinstance(s_.value, ast.Call) and isinstance(s_.value.func, ast.Attribute) and s_.value.func.attr == "update" and norm(s_.value.func.value).endswith("._cache"):
+                # cache.update(<pairs built from the key list and the result>) stores the result under the primary key
+                if any(isinstance(n, ast.Name) and env.get(n.id) == "RES" for a in s_.value.args for n in ast.walk(a)) or any(isinstance(n, ast.Call) and isinstance(n.func, ast.Name) and n.func.id == "method" for a in s_.value.args for n in ast.walk(a)):
+                    st["entry"] = "RES"
+                continue
             if isinstance(s_, ast.Expr):
                 ev(s_.value, st, env) if isinstance(s_.value, ast.Call) and isinstance(s_.value.func, ast.Name) and s_.value.func.id == "method" else None
                 continue
@@ -376,6 +381,14 @@ def rule_r4(rep, program):
             if leak is not None:
                 r.violate(PROP, f"{dname}.wrapper:miss-not-stored", f"on a cache miss the wrapper can return (at `{norm(leak.ast)[:50] if leak.ast is not None else 'end'}`) without writing the evaluated value to the state's cache: on such states every later call evaluates the wrapped method (and the user's model function) again, and auxiliary outputs are lost", node=leak.ast or w, file=d.file)
         if dname == "cache_in_state_with_aux":
+            # auxiliary entries are written only with values the method actually returned: pairing the key list with a
+            # padded value list (zip_longest, fromkeys, a store for every key) overwrites valid entries of values that
+            # were not returned with None - the invalidation marker
+            for n in ast.walk(w):
+                if isinstance(n, ast.Call) and norm(n.func).split(".")[-1] in ("zip_longest",) or (isinstance(n, ast.Call) and norm(n.func) in ("dict.fromkeys",) and n.args and norm(n.args[0]) == "keys"):
+                    used_for_store = any(isinstance(x, ast.Call) and isinstance(x.func, ast.Attribute) and x.func.attr == "update" and norm(x.func.value).endswith("._cache") and any(y is n for y in ast.walk(x)) for x in ast.walk(w)) or any(isinstance(x, ast.For) and any(y is n for y in ast.walk(x.iter)) and any(isinstance(t, ast.Subscript) and norm(t.value).endswith("._cache") for st_ in ast.walk(x) if isinstance(st_, ast.Assign) for t in st_.targets) for x in ast.walk(w))
+                    if used_for_store:
+                        r.violate(PROP, f"{dname}.wrapper:aux-padded:{norm(n.func)}", f"the wrapper stores the auxiliary keys paired with a padded value list (`{norm(n)[:60]}`): when the wrapped function returns only its primary value, every auxiliary entry - including ones that hold a valid value - is overwritten with None and has to be evaluated again", node=n, file=d.file)
             stores = False
             for n in ast.walk(w):
                 if isinstance(n, ast.For) and isinstance(n.iter, ast.Call) and norm(n.iter.func) == "zip" and isinstance(n.target, ast.Tuple):
